@@ -284,6 +284,50 @@ def a3(fb, chk):
         chk.check(okh and val, "A3", key, "handler %s under size/validity facts" % c["name"],
                   "arm %s calls %s (protocol: %s) with size/validity fact present: %s" % (code, c["name"], row["handler"], val),
                   fr.loc(t["line"]))
+    # a message with the REPLY flag is not a request: no handler runs for it.  The header validator accepts the flag (it
+    # is legal in replies), so the request servers must test it themselves - directly or through a size-check helper
+    # all of whose Ok paths carry the fact.
+    def _no_reply_helpers(server_adt):
+        good = set()
+        for g in fb.find(self_adt=server_adt):
+            if g.trait or not g.blocks:
+                continue
+            summ_ = Summariser(fb, no_inline=lambda h: True)
+            try:
+                outs_, _sym = summ_.paths(g)
+            except Exception:
+                continue
+            oks = [o for o in outs_ if o.ret is not None and ret_okness(o.ret) is True]
+            if oks and all(any(a[0] == "false" and a[1][0] == "call" and a[1][1] == "is_reply" for a in o.atoms) for o in oks):
+                good.add(g.name)
+        return good
+    # (C06 states this for the frontend's server of backend-initiated requests; C05 enumerates the backend server's rules)
+    for server_adt, trait_, disp in (("FrontendReqHandler", common.FE_HANDLER_TRAIT, fr),):
+        helpers = _no_reply_helpers(server_adt)
+        # helpers that always go through such a helper (e.g. the body extractor calling the size check)
+        for g in fb.find(self_adt=server_adt):
+            if g.trait or g.name in helpers:
+                continue
+            gm = must_of(fb, g)
+            rets = [bi for bi, b in enumerate(g.blocks) if b["term"]["k"] == "ret" and not b["cleanup"]]
+            summ_ = Summariser(fb, no_inline=lambda h: True)
+            try:
+                outs_, _sym = summ_.paths(g)
+            except Exception:
+                continue
+            oks = [o for o in outs_ if o.ret is not None and ret_okness(o.ret) is True]
+            if oks and all(any(a[0] == "ok" and a[1][0] == "call" and a[1][1] in helpers for a in o.atoms) for o in oks):
+                helpers.add(g.name)
+        dm = must_of(fb, disp)
+        for bb, t, c in common.handler_sites(fb, disp, trait_):
+            atoms = dm.atoms_at(bb)
+            direct = any(a[0] == "false" and a[1][0] == "call" and a[1][1] == "is_reply" for a in atoms)
+            via = any(a[0] == "ok" and a[1][0] == "call" and a[1][1] in helpers for a in atoms)
+            codes = sorted(common.arm_codes(dm, bb))
+            chk.check(direct or via, "A3", "not-a-reply:%s:%s" % (server_adt, "/".join(codes) or c["name"]),
+                      "handler reached only for headers without the REPLY flag",
+                      "%s calls %s for a message whose REPLY flag was never tested: a reply-flagged message is dispatched as a request"
+                      % (disp.short, c["name"]), disp.loc(t["line"]))
     # the body extractor validates: Ok => size check Ok and is_valid true
     for ex in fb.find(name="extract_msg_body", self_adt="FrontendReqHandler") + fb.find(name="extract_request_body", self_adt="BackendReqHandler"):
         summ = Summariser(fb, no_inline=lambda g: True)
